@@ -282,12 +282,38 @@ def run(ctx):
     res.sample({"line": cases[0][0], "tls": cases[0][2], "answer": impl[0]})
     res.sample({"line": cases[20][0], "rest": cases[20][1], "tls": cases[20][2], "order": cases[20][3], "answer": impl[20]})
     sniff_all(res)
+    long_lines(res, cfg0)
     res.degraded = list(pyg.degraded)
     return res
 
 
+def long_lines(res, cfg):
+    """Request lines far longer than any buffer, through the real connection handler (readline -> detection -> answer):
+    the answer must come in the framing of the protocol whose shape the whole line has."""
+    for n in (4090, 4200, 8200, 65530, 66000, 200000):
+        pad = b"a" * n
+        for line, tls, want, starts in ((b"GET /?pad=" + pad + b" HTTP/1.0\r\n\r\n", False, "HTTPProtocol", (b"HTTP/1.0 ",)),
+                                         (b"/" + pad + b"\t+\r\n", False, "GopherPlusProtocol", (b"--", b"+")),
+                                         (b"localhost /" + pad + b" 0\r\n", False, "SpartanProtocol", (b"4 ", b"5 ", b"2 ")),
+                                         (b"/" + pad + b"\tq\t$\r\n", True, "SecureGopherPlusProtocol", (b"--", b"+")),
+                                         (b"/" + pad + b"\r\n", False, "GopherProtocol", (b"3",))):
+            r = pyg.request(line, cfg, tls=tls)
+            res.evaluations += 1
+            res.count("long-line:" + want)
+            out = r.out or b""
+            if r.exc is not None or not out.startswith(starts):
+                res.violation(f"C02:wrong-class:{want}->long-line", "a long request line was not answered by the protocol whose shape it has",
+                              {"line": line[:40] + b"..." + line[-16:], "length": len(line), "tls": tls}, observed=(repr(r.exc) if r.exc else out[:60]),
+                              required="an answer of " + want, replay={"long_line": [line[:12].decode("latin-1"), n, line[12 + n:].decode("latin-1") if False else ""], "tls": tls})
+
+
 def replay(data):
     rp = data["violation"]["replay"]
+    if "long_line" in rp:
+        r = Result()
+        long_lines(r, pyg.make_config("/nonexistent-root"))
+        print(r.violations)
+        return 0
     if "first_byte" in rp or "silent" in rp:
         r = Result()
         sniff_all(r)
